@@ -115,7 +115,7 @@ pub proof fn lemma_skey_inj(a: Seq<char>, b: Seq<char>)
 { assert(skey(a)@ == a); assert(skey(b)@ == b); }
 pub proof fn lemma_keys_distinct()
     ensures ctx_key() != fn_key(), crate::duckscriptsdk::scspec::stack_key() != fn_key(), crate::duckscriptsdk::scspec::stack_key() != ctx_key(),
-        skey("meta_info"@) != skey("call_stack"@),
+        skey("meta_info"@) != skey("call_stack"@), skey("handles"@) != ctx_key(),
 {
     reveal_strlit("duckscriptsdk::runtime"); reveal_strlit("line_context_name"); reveal_strlit("duckscriptsdk::command"); reveal_strlit("function");
     reveal_strlit("scope_stack"); reveal_strlit("::"); reveal_strlit("meta_info"); reveal_strlit("call_stack");
@@ -127,5 +127,7 @@ pub proof fn lemma_keys_distinct()
     lemma_skey_inj("scope_stack"@, concat_spec("duckscriptsdk::command"@, "function"@));
     lemma_skey_inj("scope_stack"@, concat_spec("duckscriptsdk::runtime"@, "line_context_name"@));
     lemma_skey_inj("meta_info"@, "call_stack"@);
+    reveal_strlit("handles"); assert("handles"@.len() == 7);
+    lemma_skey_inj("handles"@, concat_spec("duckscriptsdk::runtime"@, "line_context_name"@));
 }
 } // mod fspec
